@@ -895,6 +895,11 @@ def main():
         gens += rs2lean_ctors.generators(args.repo)
     except ImportError:
         pass
+    try:
+        import rs2lean_errno
+        gens += rs2lean_errno.generators(args.repo)
+    except ImportError:
+        pass
     for name, g in gens:
         try:
             content = g(world)
